@@ -190,6 +190,26 @@ class DirtyCache(Component):
                 out[k] = "dirty"
         return out
 
+    def on_branch(self, interp, st, test_node, tv, truth):
+        """`"edges" in self.__dict__` : on the false branch the cached_property is absent."""
+        x = tv.extra
+        neg = False
+        if x and x[0] == "not":
+            x = x[1].extra
+            neg = True
+        if not x or x[0] != "cmp":
+            return
+        node, left, rights = x[1], x[2], x[3]
+        if len(rights) != 1 or not isinstance(node.ops[0], (ast.In, ast.NotIn)):
+            return
+        if not (left.has_const() and isinstance(left.const, str) and rights[0].kind == "objdict"):
+            return
+        present_when = isinstance(node.ops[0], ast.In) != neg
+        key = (rights[0].base.obj.oid, left.const, "")
+        state = st.comp[self.name]
+        if key in state and truth != present_when:
+            state[key] = "absent"
+
     # helpers
     def _in_refresh(self, interp, oid, cache):
         for fr in interp.frames:
